@@ -29,6 +29,7 @@ pub static SPEC: Spec = Spec {
         "entry_upgrades_verified",
         "proofs_verified_by_reference",
         "root_sets_with_7_roots",
+        "replica_tree_slots_compared",
     ],
     rule: "a case = one writer history (block sizes 0..12288, every length 1..130 in quick, plus 255/256/257, 1023..1025, 32767..32769, 70000 in thorough, built by seeded mixes of single appends, batches and reopen steps) or one honest replication session; after EVERY operation the raw tree and oplog bytes are decoded by the reference reader and compared with a reference Merkle tree built from the block sequence alone: every non-zero 40-byte slot must be a full reference node with identical size and hash, after replaying unflushed entries every full reference node must be present, the header root hash and every entry upgrade must equal the reference root hash of that length, and every stored signature must verify (ed25519 verify_strict) under the core's public key over namespace||root hash||LE64(length)||LE64(fork) computed by the reference; every honest proof of the sessions is verified by the independent reference verifier (sibling paths, root stack, signature) and each carried node must equal the reference node of its index; distinct = history/session hash",
     assumptions: &[
@@ -268,6 +269,16 @@ fn session_case(ctx: &mut Ctx, r: &mut Rng) -> Result<(), Fail> {
                 for (i, s, h) in v.learned {
                     known.insert(i, (s, h));
                 }
+                // a few corrupted variants first: whatever the replica makes of them, the nodes it
+                // persists must stay reference nodes
+                let mut alts = crate::mutate::alterations(&p, r, 1);
+                r.shuffle(&mut alts);
+                for alt in alts.iter().filter(|a| a.must_refuse()).take(3) {
+                    if let Some(q) = crate::mutate::apply(&p, alt) {
+                        let _ = crate::repl::apply_proof(sess.pair.replica.core(), &q);
+                        ctx.count("corrupted_proofs_offered_to_replica");
+                    }
+                }
                 // only now the replica applies it (its acceptance is C03's business)
                 match crate::repl::apply_proof(sess.pair.replica.core(), &p) {
                     Ok(Ok(true)) => {
@@ -275,6 +286,24 @@ fn session_case(ctx: &mut Ctx, r: &mut Rng) -> Result<(), Fail> {
                         sess.pair.replica.model_accept(&p, &w);
                     }
                     other => return Err(ops::fail("scenario:replica-refused", format!("{:?}", other.map(|x| x.map_err(|e| e.to_string()))))),
+                }
+                // every node the replica has persisted (tree file + unflushed entries) is the
+                // reference node of its index
+                let rfiles = snapshot(&sess.pair.replica.world);
+                let mut rnodes = refimpl::read_tree_file(&rfiles[0]);
+                if let Some(o) = refimpl::read_oplog(&rfiles[3]) {
+                    for e in &o.entries {
+                        for (i, s, h) in &e.nodes {
+                            rnodes.insert(*i, (*s, *h));
+                        }
+                    }
+                }
+                for (i, (s, h)) in &rnodes {
+                    match reft.nodes.get(i) {
+                        Some((rs, rh)) if rs == s && rh == h => {}
+                        _ => return Err(ops::fail("replica-persisted-node-differs", format!("replica persisted node {i} (size {s}) that is not the reference node of that index"))),
+                    }
+                    ctx.count("replica_tree_slots_compared");
                 }
             }
         }
